@@ -504,7 +504,7 @@ func withTimeout(d time.Duration, f func() string) string {
 	}
 }
 
-const opTimeout = 8 * time.Second
+const opTimeout = 4 * time.Second
 
 // Exec executes one protocol op (lhs tokens) on the real nodes and returns the result token.
 func (r *Ring) Exec(t []string) string {
